@@ -1,4 +1,5 @@
 import Sourmash.Lemmas.DownsampleCmp
+import Sourmash.Lemmas.DownsampleClosed
 /-! Property C04 — downsampling commutes with sketching and with every comparison.
 
 Property theorems only (helper lemmas: `Lemmas/Downsample*.lean`, `Lemmas/SetOps*.lean`), about the
@@ -9,7 +10,11 @@ the specification of the result: ceiling `m`, the hashes `≤ m`, their abundanc
 
 Facts about `max_hash_for_scaled` / `scaled_for_max_hash` themselves (antitone, round trip) belong to
 C14 and are proved in `Theorems/C14.lean`; where a statement here needs one, it is an explicit
-hypothesis named in the doc comment. -/
+hypothesis named in the doc comment, and the section *closed forms* at the end of the file restates the
+theorem with those hypotheses discharged by C14's theorems (`Sourmash.C14.maxHash_antitone` for
+`1 ≤ s ≤ t < 2⁶⁴`, `Sourmash.C14.roundtrip` for `1 ≤ s ≤ 2³¹`) and by `Scaled.maxHash_ne_zero`
+(`max_hash_for_scaled s ≠ 0` for `1 ≤ s < 2⁶⁴`, `Lemmas/DownsampleClosed.lean`): what remains are range
+conditions on the scaled values only. -/
 namespace Sourmash.C04
 open SetOps SetSpec Scaled
 
@@ -232,5 +237,111 @@ theorem gather_ds_scaled (k : Kind) (oq rq m : Sk) (ms : Nat) (hm : m.Scaled) (h
   gather_ds k oq rq m _ ms (by omega) (downsample_exact k hm h0 hlt hM) hrt
 example : exS.Scaled ∧ exS.scaled ≠ 0 ∧ exS.scaled < 2000 ∧ maxHashForScaled 2000 ≠ 0 ∧
     scaledForMaxHash (maxHashForScaled 2000) = 2000 := ⟨exS_scaled, by decide, by decide, by decide, by decide⟩
+
+/-! ## closed forms: the C14 hypotheses discharged
+
+The theorems above take `max_hash_for_scaled s' ≠ 0`, antitonicity and the round trip as hypotheses.
+Below they are restated with range conditions only: every requested scaled value is a `u64`
+(`< 2⁶⁴`, which is what `downsample_scaled` takes), and where the round trip is needed the value is
+`≤ 2³¹` (the range on which C14 proves it; beyond it the round trip fails for some values — that is
+C14's business, not a gap here). -/
+
+/-- **T-ds_exact** (first half), closed: no hypothesis on the new ceiling — the target is any `u64`
+above the sketch's own non-zero scaled value. -/
+theorem ds_exact_closed (k : Kind) (x : Sk) (s' : Nat) (hx : x.Scaled) (h0 : x.scaled ≠ 0)
+    (hlt : x.scaled < s') (h64 : s' < 2 ^ 64) :
+    downsampleScaled k x s' = .ok (belowSk (maxHashForScaled s') x) :=
+  ds_exact k x s' hx h0 hlt (maxHash_ne_zero s' (by omega) h64)
+example : exS.Scaled ∧ exS.scaled ≠ 0 ∧ exS.scaled < 2000 ∧ 2000 < 2 ^ 64 :=
+  ⟨exS_scaled, by decide, by decide, by decide⟩
+
+/-- **T-ds_exact** (second half), closed: `e` is an empty sketch created at scaled `s`
+(`1 ≤ s ≤ 2³¹`, ceiling `max_hash_for_scaled s`); the sketch of any insertions made into it,
+downsampled to any `u64` `s' > s`, is the sketch of the same insertions made directly at `s'`.
+`hmono` is `Sourmash.C14.maxHash_antitone s s'`, `e.scaled = s` is `Sourmash.C14.roundtrip s`. -/
+theorem ds_exact_sketch_closed (k : Kind) (e : Sk) (items : List (Nat × Nat)) (s s' : Nat)
+    (he : e.WF) (hnum : e.num = 0) (hemp : e.mins = []) (hpos : ∀ p ∈ items, p.2 ≠ 0)
+    (hcr : e.maxHash = maxHashForScaled s) (h1 : 1 ≤ s) (h31 : s ≤ 2 ^ 31)
+    (hlt : s < s') (h64 : s' < 2 ^ 64) :
+    downsampleScaled k (e.addManyAb k items) s' =
+      .ok (({ e with maxHash := maxHashForScaled s' } : Sk).addManyAb k items) := by
+  have hsc : e.scaled = s := Sk.scaled_of_created hcr h1 h31
+  have hm0 : e.maxHash ≠ 0 := by rw [hcr]; exact maxHash_ne_zero s h1 (by omega)
+  exact ds_exact_sketch k e items s' ⟨he, hnum, hm0⟩ hemp hpos (by omega) (by omega)
+    (maxHash_ne_zero s' (by omega) h64)
+    (by rw [hcr]; exact Sourmash.C14.maxHash_antitone s s' h1 (by omega) h64)
+example : exE.WF ∧ exE.num = 0 ∧ exE.mins = [] ∧ exE.maxHash = maxHashForScaled 1000 ∧
+    (1:Nat) ≤ 1000 ∧ 1000 ≤ 2 ^ 31 ∧ 1000 < 2000 ∧ 2000 < 2 ^ 64 :=
+  ⟨exE_sc.1, rfl, rfl, by decide, by decide, by decide, by decide, by decide⟩
+
+/-- **T-ds_idem**, closed: for every target `1 ≤ s' ≤ 2³¹` (round trip: `Sourmash.C14.roundtrip`). -/
+theorem ds_idem_closed (k : Kind) (x r : Sk) (s' : Nat) (hx : x.Scaled) (h1 : 1 ≤ s') (h31 : s' ≤ 2 ^ 31)
+    (h : downsampleScaled k x s' = .ok r) : downsampleScaled k r s' = .ok r :=
+  ds_idem k x r s' hx (maxHash_ne_zero s' h1 (by omega)) (Sourmash.C14.roundtrip s' h1 h31) h
+example : exS.Scaled ∧ (1:Nat) ≤ 2000 ∧ 2000 ≤ 2 ^ 31 ∧
+    ∃ r, downsampleScaled .vec exS 2000 = .ok r :=
+  ⟨exS_scaled, by decide, by decide, _, downsample_exact .vec exS_scaled (by decide) (by decide) (by decide)⟩
+
+/-- **T-ds_compose**, closed: `0 < scaled(x) ≤ s' ≤ s''` with the intermediate value `s' ≤ 2³¹` and
+the final one any `u64`: going through `s'` gives the same sketch as going directly
+(`Sourmash.C14.roundtrip s'`, `Sourmash.C14.maxHash_antitone s' s''`). -/
+theorem ds_compose_closed (k : Kind) (x r1 : Sk) (s' s'' : Nat) (hx : x.Scaled) (h0 : x.scaled ≠ 0)
+    (h12 : x.scaled ≤ s') (h23 : s' ≤ s'') (h31 : s' ≤ 2 ^ 31) (h64 : s'' < 2 ^ 64)
+    (h1 : downsampleScaled k x s' = .ok r1) :
+    downsampleScaled k r1 s'' = downsampleScaled k x s'' :=
+  ds_compose k x r1 s' s'' hx h0 h12 h23 (maxHash_ne_zero s'' (by omega) h64)
+    (Sourmash.C14.maxHash_antitone s' s'' (by omega) h23 h64)
+    (Sourmash.C14.roundtrip s' (by omega) h31) h1
+example : exS.Scaled ∧ exS.scaled ≠ 0 ∧ exS.scaled ≤ 2000 ∧ 2000 ≤ 10000 ∧ 2000 ≤ 2 ^ 31 ∧ 10000 < 2 ^ 64 ∧
+    ∃ r, downsampleScaled .vec exS 2000 = .ok r :=
+  ⟨exS_scaled, by decide, by decide, by decide, by decide, by decide,
+   _, downsample_exact .vec exS_scaled (by decide) (by decide) (by decide)⟩
+
+/-- **T-ds_compose** for a sketch created at `s`: the whole chain `1 ≤ s ≤ s' ≤ s''`, `s' ≤ 2³¹`,
+`s'' < 2⁶⁴`, stated on the creation value instead of on `scaled()`. -/
+theorem ds_compose_created (k : Kind) (x r1 : Sk) (s s' s'' : Nat) (hx : x.Scaled)
+    (hcr : x.maxHash = maxHashForScaled s) (h1s : 1 ≤ s)
+    (h12 : s ≤ s') (h23 : s' ≤ s'') (h31 : s' ≤ 2 ^ 31) (h64 : s'' < 2 ^ 64)
+    (h1 : downsampleScaled k x s' = .ok r1) :
+    downsampleScaled k r1 s'' = downsampleScaled k x s'' := by
+  have hsc : x.scaled = s := Sk.scaled_of_created hcr h1s (by omega)
+  exact ds_compose_closed k x r1 s' s'' hx (by omega) (by omega) h23 h31 h64 h1
+example : exS.Scaled ∧ exS.maxHash = maxHashForScaled 1000 ∧ (1:Nat) ≤ 1000 ∧ 1000 ≤ 2000 ∧ 2000 ≤ 10000 ∧
+    2000 ≤ 2 ^ 31 ∧ 10000 < 2 ^ 64 :=
+  ⟨exS_scaled, by decide, by decide, by decide, by decide, by decide, by decide⟩
+
+/-- **T-ds_merge**, closed (target any `u64` above the operands' scaled value). -/
+theorem ds_merge_closed (k : Kind) (a b : Sk) (s' : Nat) (ha : a.Scaled) (hb : b.Scaled)
+    (hc : checkCompatible a b = .ok ()) (h0 : a.scaled ≠ 0) (hlt : a.scaled < s') (h64 : s' < 2 ^ 64) :
+    (a.merge k b >>= fun m => downsampleScaled k m s') =
+      (do let a' ← downsampleScaled k a s'
+          let b' ← downsampleScaled k b s'
+          a'.merge k b') :=
+  ds_merge k a b s' ha hb hc h0 hlt (maxHash_ne_zero s' (by omega) h64)
+example : exS.Scaled ∧ checkCompatible exS exS = .ok () ∧ exS.scaled ≠ 0 ∧ exS.scaled < 2000 ∧
+    2000 < 2 ^ 64 := ⟨exS_scaled, by simp [checkCompatible], by decide, by decide, by decide⟩
+
+/-- **T-ds_isect**, closed (target any `u64` above the operands' scaled value). -/
+theorem ds_isect_closed (k : Kind) (a b : Sk) (s' : Nat) (ha : a.Scaled) (hb : b.Scaled)
+    (hc : checkCompatible a b = .ok ()) (h0 : a.scaled ≠ 0) (hlt : a.scaled < s') (h64 : s' < 2 ^ 64) :
+    (do let a' ← downsampleScaled k a s'
+        let b' ← downsampleScaled k b s'
+        intersection k a' b') =
+      .ok (below (maxHashForScaled s') (inter a.mins b.mins),
+           (below (maxHashForScaled s') (union a.mins b.mins)).length) :=
+  ds_isect k a b s' ha hb hc h0 hlt (maxHash_ne_zero s' (by omega) h64)
+example : exS.Scaled ∧ checkCompatible exS exS = .ok () ∧ exS.scaled ≠ 0 ∧ exS.scaled < 2000 ∧
+    2000 < 2 ^ 64 := ⟨exS_scaled, by simp [checkCompatible], by decide, by decide, by decide⟩
+
+/-- **T-gather_ds**, closed: for a scaled match strictly finer than the query and a query whose scaled
+value is `≤ 2³¹`, the statistics computed from the match are those computed from its explicitly
+downsampled copy (`Sourmash.C14.roundtrip` at `scaled(query)`). -/
+theorem gather_ds_scaled_closed (k : Kind) (oq rq m : Sk) (ms : Nat) (hm : m.Scaled) (h0 : m.scaled ≠ 0)
+    (hlt : m.scaled < rq.scaled) (h31 : rq.scaled ≤ 2 ^ 31) :
+    gatherStats k oq rq m ms = gatherStats k oq rq (belowSk (maxHashForScaled rq.scaled) m) ms :=
+  gather_ds_scaled k oq rq m ms hm h0 hlt (maxHash_ne_zero rq.scaled (by omega) (by omega))
+    (Sourmash.C14.roundtrip rq.scaled (by omega) h31)
+example : exS.Scaled ∧ exS.scaled ≠ 0 ∧ exS.scaled < (belowSk (maxHashForScaled 2000) exS).scaled ∧
+    (belowSk (maxHashForScaled 2000) exS).scaled ≤ 2 ^ 31 := ⟨exS_scaled, by decide, by decide, by decide⟩
 
 end Sourmash.C04
